@@ -3,6 +3,7 @@ package main
 import (
 	"fmt"
 	"go/types"
+	"os"
 	"strings"
 
 	"github.com/mmcloughlin/avo/build"
@@ -51,6 +52,10 @@ type c08Outcome struct {
 	msg  string
 }
 
+// c08Sizes: gc/amd64 sizes as go/types knows them — the expectations of this
+// check never come from avo's own gotypes.Sizes.
+var c08Sizes = types.SizesFor("gc", "amd64")
+
 func c08NewCtx(sig string) (*build.Context, error) {
 	c := build.NewContext()
 	c.Function("f")
@@ -70,8 +75,24 @@ func c08NewCtx(sig string) (*build.Context, error) {
 	return c, nil
 }
 
+// c08Insts: the instructions of the function being built (comments, labels and
+// other nodes a refactored Load/Store might add are not instructions).
+func c08Insts(c *build.Context) (insts []*ir.Instruction, errs int) {
+	f, _ := c.Result()
+	if f != nil {
+		if fns := f.Functions(); len(fns) > 0 {
+			for _, n := range fns[len(fns)-1].Nodes {
+				if i, ok := n.(*ir.Instruction); ok {
+					insts = append(insts, i)
+				}
+			}
+		}
+	}
+	return insts, c.VerifErrCount()
+}
+
 func c08Observe(c *build.Context, call func()) (out c08Outcome) {
-	n0, e0, _ := c06State(c)
+	i0, e0 := c08Insts(c)
 	panicked := false
 	func() {
 		defer func() {
@@ -81,65 +102,170 @@ func c08Observe(c *build.Context, call func()) (out c08Outcome) {
 		}()
 		call()
 	}()
-	n1, e1, last := c06State(c)
+	i1, e1 := c08Insts(c)
+	n0, n1 := len(i0), len(i1)
 	switch {
 	case panicked:
 		out.resp = "panic"
-	case n1 == n0+1 && e1 == e0 && last != nil:
+	case n1 == n0+1 && e1 == e0:
+		last := i1[n1-1]
 		out.resp = "op " + last.Opcode
 		if len(last.Suffixes) > 0 {
 			out.resp += "." + strings.Join(last.Suffixes, ".")
 		}
 		out.inst = last
-	case n1 == n0 && e1 == e0+1:
+	case n1 == n0 && e1 > e0:
 		out.resp = "error"
 		msgs := c.VerifErrMessages()
 		out.msg = msgs[len(msgs)-1]
 	default:
-		out.resp = fmt.Sprintf("odd:nodes%+d:errs%+d", n1-n0, e1-e0)
+		out.resp = fmt.Sprintf("odd:insts%+d:errs%+d", n1-n0, e1-e0)
 	}
 	return out
 }
 
 // c08Case is one reachable input with what the implementation did.
 type c08Case struct {
-	dir   string // load | store
-	typ   string // Go spelling
-	basic *types.Basic
-	reg   c08Reg
-	shape string // param | deref
-	mem   operand.Mem
-	out   c08Outcome
+	dir    string // load | store
+	typ    string // Go spelling
+	basic  *types.Basic
+	reg    c08Reg
+	shape  string // param | deref | cderef
+	via    string // ctx (Context.Load/Store) | pkg (package-level build.Load/Store on a swapped-in context)
+	mem    operand.Mem
+	out    c08Outcome
+	ret    reg.Register // what Load returned
+	ptrOut *c08Outcome  // cderef: what Context.Dereference did to load the pointer
+	ptrMem operand.Mem  // cderef: the pointer's own address
 }
 
-func c08Run(dir, typ, shape string, rg c08Reg) (*c08Case, error) {
+// c08Comp picks the component: parameter x / result r, the pointee of p / q
+// through gotypes' Dereference on a given base register, or through
+// Context.Dereference (build.Dereference), which itself Loads the pointer.
+func c08Comp(c *build.Context, cs *c08Case, nav func(gotypes.Component) gotypes.Component) gotypes.Component {
+	var comp gotypes.Component
+	root := func(name string) gotypes.Component {
+		if cs.dir == "load" {
+			if cs.via == "pkg" {
+				return build.Param(name)
+			}
+			return c.Param(name)
+		}
+		if cs.via == "pkg" {
+			return build.Return(name)
+		}
+		return c.Return(name)
+	}
+	pname, vname := "p", "x"
+	if cs.dir == "store" {
+		pname, vname = "q", "r"
+	}
+	switch cs.shape {
+	case "param":
+		comp = root(vname)
+	case "deref":
+		comp = root(pname).Dereference(reg.R14)
+	default: // cderef
+		ptr := root(pname)
+		if b, err := ptr.Resolve(); err == nil {
+			cs.ptrMem = b.Addr
+		}
+		o := c08Observe(c, func() {
+			if cs.via == "pkg" {
+				comp = build.Dereference(ptr)
+			} else {
+				comp = c.Dereference(ptr)
+			}
+		})
+		cs.ptrOut = &o
+	}
+	if nav != nil && comp != nil {
+		comp = nav(comp)
+	}
+	return comp
+}
+
+func c08Exec(c *build.Context, cs *c08Case, nav func(gotypes.Component) gotypes.Component) {
+	if cs.via == "pkg" {
+		old := build.VerifSwapContext(c)
+		defer build.VerifSwapContext(old)
+	}
+	comp := c08Comp(c, cs, nav)
+	if comp == nil {
+		cs.out = c08Outcome{resp: "panic"}
+		return
+	}
+	if b, err := comp.Resolve(); err == nil {
+		cs.basic, cs.mem = b.Type, b.Addr
+	}
+	rg := cs.reg
+	switch {
+	case cs.dir == "load" && cs.via == "pkg":
+		cs.out = c08Observe(c, func() { cs.ret = build.Load(comp, rg.r) })
+	case cs.dir == "load":
+		cs.out = c08Observe(c, func() { cs.ret = c.Load(comp, rg.r) })
+	case cs.via == "pkg":
+		cs.out = c08Observe(c, func() { build.Store(rg.r, comp) })
+	default:
+		cs.out = c08Observe(c, func() { c.Store(rg.r, comp) })
+	}
+}
+
+func c08Run(dir, typ, shape, via string, rg c08Reg) (*c08Case, error) {
 	sig := fmt.Sprintf("func(x %s, p *%s) (r %s, q *%s)", typ, typ, typ, typ)
 	c, err := c08NewCtx(sig)
 	if err != nil {
 		return nil, err
 	}
-	var comp gotypes.Component
-	base := reg.R14
-	switch {
-	case dir == "load" && shape == "param":
-		comp = c.Param("x")
-	case dir == "load" && shape == "deref":
-		comp = c.Param("p").Dereference(base)
-	case dir == "store" && shape == "param":
-		comp = c.Return("r")
-	default:
-		comp = c.Return("q").Dereference(base)
-	}
-	cs := &c08Case{dir: dir, typ: typ, reg: rg, shape: shape}
-	if b, err := comp.Resolve(); err == nil {
-		cs.basic, cs.mem = b.Type, b.Addr
-	}
-	if dir == "load" {
-		cs.out = c08Observe(c, func() { c.Load(comp, rg.r) })
-	} else {
-		cs.out = c08Observe(c, func() { c.Store(rg.r, comp) })
-	}
+	cs := &c08Case{dir: dir, typ: typ, reg: rg, shape: shape, via: via}
+	c08Exec(c, cs, nil)
 	return cs, nil
+}
+
+// c08TabRow: one line of the behaviour table Gen.movTab.
+type c08TabRow struct {
+	dir, tinfo, tsize, rkind, rsize, rmask, mbase int
+	outcome                                       string // opcode, "" = error
+	note, tname                                   string
+}
+
+// c08Spelling: Go source spelling of a basic type.
+func c08Spelling(t *types.Basic) string {
+	if t.Kind() == types.UnsafePointer {
+		return "unsafe.Pointer"
+	}
+	return t.Name()
+}
+
+// c08Tabulate runs the real Context.Load / Context.Store over the complete
+// class-level domain (direction x basic type x a virtual register of every
+// class x address on the FP pseudo register / on a general-purpose base).
+func c08Tabulate() ([]c08TabRow, error) {
+	var rows []c08TabRow
+	for di, dir := range []string{"load", "store"} {
+		for _, t := range basicGoTypes() {
+			for _, rg := range c08Registers()[:9] {
+				for mi, shape := range []string{"param", "deref"} {
+					cs, err := c08Run(dir, c08Spelling(t), shape, "ctx", rg)
+					if err != nil {
+						return nil, err
+					}
+					row := c08TabRow{dir: di, tinfo: int(t.Info()), tsize: int(c08Sizes.Sizeof(t)), rkind: int(rg.r.Kind()), rsize: int(rg.r.Size()),
+						rmask: int(rg.r.Mask()), mbase: mi, tname: t.Name(), note: dir + " " + t.Name() + " " + rg.class + " " + shape}
+					switch {
+					case strings.HasPrefix(cs.out.resp, "op "):
+						row.outcome = cs.out.resp[3:]
+					case cs.out.resp == "error":
+						row.outcome = ""
+					default:
+						row.outcome = "!" + cs.out.resp // never a modelled opcode: the theorems fail
+					}
+					rows = append(rows, row)
+				}
+			}
+		}
+	}
+	return rows, nil
 }
 
 // c08WantBasic: the basic type a component of the spelled type must resolve to (pointers resolve to uintptr).
@@ -194,7 +320,7 @@ var c08Subs = []c08Sub{
 	}, func(c gotypes.Component) gotypes.Component { return c.Field("b") }, types.Typ[types.Uint32], true},
 }
 
-func c08RunSub(dir string, sub c08Sub, shape string, rg c08Reg) (*c08Case, error) {
+func c08RunSub(dir string, sub c08Sub, shape, via string, rg c08Reg) (*c08Case, error) {
 	t := sub.typ()
 	pt := types.NewPointer(t)
 	params := types.NewTuple(types.NewVar(0, nil, "x", t), types.NewVar(0, nil, "p", pt))
@@ -205,33 +331,104 @@ func c08RunSub(dir string, sub c08Sub, shape string, rg c08Reg) (*c08Case, error
 	if c.VerifErrCount() != 0 {
 		return nil, fmt.Errorf("signature for %s: %v", sub.name, c.VerifErrMessages())
 	}
-	var comp gotypes.Component
-	base := reg.R14
-	switch {
-	case dir == "load" && shape == "param":
-		comp = c.Param("x")
-	case dir == "load" && shape == "deref":
-		comp = c.Param("p").Dereference(base)
-	case dir == "store" && shape == "param":
-		comp = c.Return("r")
-	default:
-		comp = c.Return("q").Dereference(base)
-	}
-	comp = sub.nav(comp)
-	cs := &c08Case{dir: dir, typ: sub.name, reg: rg, shape: shape}
-	if b, err := comp.Resolve(); err == nil {
-		cs.basic, cs.mem = b.Type, b.Addr
-	}
-	if dir == "load" {
-		cs.out = c08Observe(c, func() { c.Load(comp, rg.r) })
-	} else {
-		cs.out = c08Observe(c, func() { c.Store(rg.r, comp) })
-	}
+	cs := &c08Case{dir: dir, typ: sub.name, reg: rg, shape: shape, via: via}
+	c08Exec(c, cs, sub.nav)
 	return cs, nil
 }
 
 func c08TypeToken(t string) string {
 	return strings.NewReplacer(" ", "", "{", "(", "}", ")", ",", ";").Replace(t)
+}
+
+type c08Counters struct {
+	hist    map[string]int
+	opcodes map[string]int
+	n       int
+}
+
+// c08Emit writes the request lines of one case; want is the basic type the
+// component must resolve to, taken from the SPELLED type / the table c08Subs
+// (never from what the component resolved to).  Reports whether an
+// instruction was selected.
+func c08Emit(o *out, cs *c08Case, want *types.Basic, k *c08Counters) bool {
+	k.n++
+	ti, ts := int(want.Info()), int(c08Sizes.Sizeof(want))
+	regTok := c06EncOp(cs.reg.r)
+	head := fmt.Sprintf("accept-movsel %s %s %s %d %d %s =>", cs.dir, c08TypeToken(want.Name()), cs.reg.class, ti, ts, regTok)
+	k.hist["shape:"+cs.shape+"/"+cs.via]++
+	if cs.ptrOut != nil {
+		// Context.Dereference: the pointer itself is loaded into a fresh 64-bit general-purpose register with the
+		// move for an 8-byte unsigned integer, and the pointee is addressed through exactly that register
+		up := types.Typ[types.Uintptr]
+		var preg reg.Register
+		if cs.ptrOut.inst != nil && len(cs.ptrOut.inst.Operands) == 2 {
+			preg, _ = cs.ptrOut.inst.Operands[1].(reg.Register)
+		}
+		ptok := "r:-"
+		if preg != nil {
+			ptok = c06EncOp(preg)
+		}
+		phead := fmt.Sprintf("accept-movsel load uintptr gp64 %d 8 %s =>", int(up.Info()), ptok)
+		if preg == nil {
+			o.emit(phead+" dereference:"+strings.ReplaceAll(cs.ptrOut.resp, " ", "_"), "ok")
+		} else {
+			o.emit(phead+" "+cs.ptrOut.resp, "ok")
+			if c06EncOps(cs.ptrOut.inst.Operands) != c06EncOps([]operand.Op{cs.ptrMem, preg}) {
+				o.emit(phead+" operands-changed", "ok")
+			}
+			if cs.basic != nil && (cs.mem.Base == nil || c06EncOp(cs.mem.Base) != ptok || cs.mem.Index != nil || cs.mem.Symbol.Name != "") {
+				o.emit(phead+" pointee-not-addressed-through-the-loaded-register", "ok")
+			}
+		}
+	}
+	if cs.basic == nil {
+		o.emit(head+" unresolved:"+c06Hex(cs.typ), "ok")
+		return false
+	}
+	if cs.basic.Kind() != want.Kind() {
+		o.emit(head+" resolved-as:"+cs.basic.Name(), "ok")
+	}
+	o.emit(fmt.Sprintf("mov %s %d %d %s %s", cs.dir, ti, ts, c06EncOp(cs.mem), regTok), cs.out.resp)
+	o.emit(head+" "+cs.out.resp, "ok")
+	if cs.dir == "load" && cs.out.resp != "panic" && (cs.ret == nil || c06EncOp(cs.ret) != regTok) {
+		// `x := Load(src, dst)`: the register returned is the destination given
+		o.emit(head+" returned-another-register", "ok")
+	}
+	if !strings.HasPrefix(cs.out.resp, "op ") {
+		k.hist[cs.out.resp]++
+		return false
+	}
+	k.hist["instruction"]++
+	k.opcodes[cs.out.resp[3:]]++
+	// the instruction must move between exactly the component address and the register given
+	wantOps := []operand.Op{cs.mem, cs.reg.r}
+	if cs.dir == "store" {
+		wantOps = []operand.Op{cs.reg.r, cs.mem}
+	}
+	if c06EncOps(cs.out.inst.Operands) != c06EncOps(wantOps) {
+		o.emit(head+" operands-changed", "ok")
+	}
+	return true
+}
+
+// c08Replay: corpus lines `request<TAB>expected answer` are passed to the model as they are (regression tests of the
+// acceptors: known-bad implementation outputs must stay rejected, known-good ones accepted).
+func c08Replay(o *out, path string) error {
+	data, err := os.ReadFile(path)
+	if err != nil {
+		return err
+	}
+	for _, line := range strings.Split(string(data), "\n") {
+		if strings.TrimSpace(line) == "" || strings.HasPrefix(line, "#") {
+			continue
+		}
+		req, want, ok := strings.Cut(line, "\t")
+		if !ok {
+			return fmt.Errorf("corpus line without expected answer: %q", line)
+		}
+		o.emit(req, want)
+	}
+	return nil
 }
 
 func init() {
@@ -247,127 +444,96 @@ func init() {
 			return err
 		}
 		defer o.close()
+		if *f.replay != "" && strings.HasSuffix(*f.replay, ".in") {
+			if err := c08Replay(o, *f.replay); err != nil {
+				return err
+			}
+			return writeJSON(*f.stats, map[string]any{"replayed": o.count})
+		}
 		r := newRng(*f.seed)
-		hist := map[string]int{}
-		opcodes := map[string]int{}
+		k := &c08Counters{hist: map[string]int{}, opcodes: map[string]int{}}
 		var selected []*c08Case
-		n := 0
+		shapes := []string{"param", "deref", "cderef"}
+		vias := []string{"ctx", "pkg"}
 		for _, dir := range []string{"load", "store"} {
 			for _, typ := range c08Types {
+				want := c08WantBasic(typ)
+				if want == nil {
+					return fmt.Errorf("no expectation for type %s", typ)
+				}
 				for _, rg := range c08Registers() {
-					for _, shape := range []string{"param", "deref"} {
-						cs, err := c08Run(dir, typ, shape, rg)
-						if err != nil {
-							return err
-						}
-						if cs.basic == nil {
-							return fmt.Errorf("%s %s: component did not resolve", dir, typ)
-						}
-						n++
-						// the expected basic type comes from the SPELLED type (go/types universe), not from what
-						// the component resolved to: a component resolving to another type is a violation
-						want := c08WantBasic(typ)
-						if want == nil {
-							return fmt.Errorf("no expectation for type %s", typ)
-						}
-						if cs.basic.Kind() != want.Kind() {
-							o.emit(fmt.Sprintf("accept-movsel %s %s %s %d %d %s => resolved-as:%s", dir, c08TypeToken(want.Name()), rg.class, int(want.Info()), int(gotypes.Sizes.Sizeof(want)), c06EncOp(rg.r), cs.basic.Name()), "ok")
-						}
-						ti, ts := int(want.Info()), int(gotypes.Sizes.Sizeof(want))
-						regTok := c06EncOp(rg.r)
-						o.emit(fmt.Sprintf("mov %s %d %d %s %s", dir, ti, ts, c06EncOp(cs.mem), regTok), cs.out.resp)
-						o.emit(fmt.Sprintf("accept-movsel %s %s %s %d %d %s => %s", dir, c08TypeToken(cs.basic.Name()), rg.class, ti, ts, regTok, cs.out.resp), "ok")
-						if strings.HasPrefix(cs.out.resp, "op ") {
-							hist["instruction"]++
-							opcodes[cs.out.resp[3:]]++
-							// the instruction must move between exactly the component address and the register given
-							want := []operand.Op{cs.mem, rg.r}
-							if dir == "store" {
-								want = []operand.Op{rg.r, cs.mem}
+					for _, shape := range shapes {
+						for _, via := range vias {
+							cs, err := c08Run(dir, typ, shape, via, rg)
+							if err != nil {
+								return err
 							}
-							if c06EncOps(cs.out.inst.Operands) != c06EncOps(want) {
-								o.emit(fmt.Sprintf("accept-movsel %s %s %s %d %d %s => operands-changed", dir, c08TypeToken(cs.basic.Name()), rg.class, ti, ts, regTok), "ok")
-							}
-							selected = append(selected, cs)
-						} else {
-							hist[cs.out.resp]++
-							if cs.out.resp == "error" && cs.out.msg != "could not deduce mov instruction" {
-								hist["error-other-message"]++
-								o.emit(fmt.Sprintf("accept-movsel %s %s %s %d %d %s => error-message:%s", dir, c08TypeToken(cs.basic.Name()), rg.class, ti, ts, regTok, c06Hex(cs.out.msg)), "ok")
+							if c08Emit(o, cs, want, k) {
+								selected = append(selected, cs)
 							}
 						}
 					}
 				}
 			}
-			// sub-components of composite and NAMED types (parts of complex numbers, string/slice headers): the
-			// expected basic type is given by the table c08Subs, independently of gotypes
-			for _, sub := range c08Subs {
-				for _, rg := range c08Registers() {
-					for _, shape := range []string{"param", "deref"} {
-						cs, err := c08RunSub(dir, sub, shape, rg)
+			// sub-components of composite and NAMED types (parts of complex numbers, string/slice headers, array
+			// elements, struct fields): the expected basic type is given by the table c08Subs, independently of gotypes
+			for si, sub := range c08Subs {
+				for ri, rg := range c08Registers() {
+					for hi, shape := range shapes {
+						cs, err := c08RunSub(dir, sub, shape, vias[(si+ri+hi)%2], rg)
 						if err != nil {
 							return err
 						}
-						n++
-						want := sub.want
-						ti, ts := int(want.Info()), int(gotypes.Sizes.Sizeof(want))
-						regTok := c06EncOp(rg.r)
-						tag := c08TypeToken(want.Name())
-						if cs.basic == nil {
-							o.emit(fmt.Sprintf("accept-movsel %s %s %s %d %d %s => unresolved:%s", dir, tag, rg.class, ti, ts, regTok, c06Hex(sub.name)), "ok")
-							continue
-						}
-						if cs.basic.Kind() != want.Kind() {
-							o.emit(fmt.Sprintf("accept-movsel %s %s %s %d %d %s => resolved-as:%s", dir, tag, rg.class, ti, ts, regTok, cs.basic.Name()), "ok")
-						}
-						hist["sub:"+sub.name]++
-						o.emit(fmt.Sprintf("mov %s %d %d %s %s", dir, ti, ts, c06EncOp(cs.mem), regTok), cs.out.resp)
-						o.emit(fmt.Sprintf("accept-movsel %s %s %s %d %d %s => %s", dir, tag, rg.class, ti, ts, regTok, cs.out.resp), "ok")
+						k.hist["sub:"+sub.name]++
+						c08Emit(o, cs, sub.want, k)
 					}
 				}
 			}
 			for _, typ := range c08NonPrimitive {
 				for _, rg := range c08Registers()[:9] {
-					cs, err := c08Run(dir, typ, "param", rg)
+					cs, err := c08Run(dir, typ, "param", "ctx", rg)
 					if err != nil {
 						return err
 					}
-					n++
+					k.n++
 					resp := cs.out.resp
 					if strings.HasPrefix(resp, "op ") {
 						resp = "moved:" + resp[3:]
 					}
-					hist["nonprimitive-"+resp]++
+					k.hist["nonprimitive-"+resp]++
 					o.emit(fmt.Sprintf("accept-nonprim %s %s %s", dir, c08TypeToken(typ), resp), "ok")
 				}
 			}
 		}
-		stats := map[string]any{"inputs": n, "histogram": hist, "opcodes_selected": opcodes}
+		stats := map[string]any{"inputs": k.n, "histogram": k.hist, "opcodes_selected": k.opcodes}
 		// CPU measurement of the selected rows
-		if *cpuRows != 0 && len(selected) > 0 {
-			// distinct (dir, type, class, opcode): physical/virtual and address shape do not change the instruction
+		if *cpuRows != 0 {
+			// distinct (dir, type, class): physical/virtual, entry point and address shape do not change the instruction
 			seen := map[string]bool{}
 			var rows []*c08Case
 			for _, cs := range selected {
-				if cs.reg.phys || cs.shape != "param" {
+				if cs.reg.phys || cs.shape != "param" || cs.via != "ctx" {
 					continue
 				}
-				k := cs.dir + " " + cs.basic.Name() + " " + cs.reg.class
-				if !seen[k] {
-					seen[k] = true
+				key := cs.dir + " " + cs.basic.Name() + " " + cs.reg.class
+				if !seen[key] {
+					seen[key] = true
 					rows = append(rows, cs)
 				}
 			}
 			if *cpuRows > 0 && *cpuRows < len(rows) {
-				// always keep 4-byte integers with XMM (F7) and one row per opcode; fill up at random
+				// always keep 4-byte integers with XMM (F7), one row per (direction, opcode) and per (direction,
+				// register class) — so high-byte registers are measured in every tier; fill up at random
 				keep := map[int]bool{}
-				byOpc := map[string]bool{}
+				first := map[string]bool{}
 				for i, cs := range rows {
-					if !byOpc[cs.dir+cs.out.resp] {
-						byOpc[cs.dir+cs.out.resp] = true
-						keep[i] = true
+					for _, key := range []string{"o" + cs.dir + cs.out.resp, "c" + cs.dir + cs.reg.class} {
+						if !first[key] {
+							first[key] = true
+							keep[i] = true
+						}
 					}
-					if cs.reg.class == "xmm" && gotypes.Sizes.Sizeof(cs.basic) == 4 {
+					if cs.reg.class == "xmm" && c08Sizes.Sizeof(cs.basic) == 4 {
 						keep[i] = true
 					}
 				}
